@@ -36,7 +36,7 @@ from collections import namedtuple, defaultdict
 from http.server import HTTPServer, BaseHTTPRequestHandler
 from json import JSONDecodeError
 from queue import Empty, PriorityQueue
-from threading import Thread
+from threading import RLock, Thread
 from time import perf_counter, sleep
 from typing import Tuple, Dict, Optional
 
@@ -537,6 +537,10 @@ class Messaging(object):
 
         # Keep track of failer messages to retry later
         self._failed = []
+        # post_msg is called from several threads (the agent's thread, the
+        # communication layer's thread(s)) : retrying failed messages must be
+        # exclusive to keep them in order and send them exactly once.
+        self._failed_lock = RLock()
 
         # Containers for metrics on sent messages:
         self.count_ext_msg = defaultdict(lambda: 0)  # type: Dict[str, int]
@@ -592,6 +596,7 @@ class Messaging(object):
         msg,
         msg_type: int = MSG_ALGO,
         on_error=None,
+        _is_retry: bool = False,
     ):
         """
         Send a message `msg` from computation `src_computation` to computation
@@ -647,7 +652,20 @@ class Messaging(object):
             self._failed.append(
                 (src_computation, dest_computation, msg, msg_type, on_error)
             )
+            # The computation may have been registered (from another thread)
+            # since we looked it up, in which case our callback might never
+            # be called: check again.
+            try:
+                dest_agent = self.discovery.computation_agent(dest_computation)
+            except UnknownComputation:
+                return
+            self._retry_failed(dest_computation, dest_agent)
             return
+
+        if self._failed and not _is_retry:
+            # Messages posted before the registration of the computation must
+            # be sent before this one.
+            self._retry_failed(dest_computation, dest_agent)
 
         full_msg = ComputationMessage(src_computation, dest_computation, msg, msg_type)
         if dest_agent == self._local_agent:
@@ -715,6 +733,12 @@ class Messaging(object):
         """
 
         if evt == "computation_added":
+            self._retry_failed(computation, agent)
+
+    def _retry_failed(self, computation: str, agent: str):
+        # A failed message is only removed once it has been posted, so that
+        # a thread that sees no failed message can safely post a newer one.
+        with self._failed_lock:
             for failed in self._failed[:]:
                 src, dest, msg, msg_type, on_error = failed
                 if dest != computation:
@@ -722,7 +746,7 @@ class Messaging(object):
                 self.logger.info(
                     "Retrying failed message to %s on %s : %s", dest, agent, msg
                 )
-                self.post_msg(src, dest, msg, msg_type, on_error)
+                self.post_msg(src, dest, msg, msg_type, on_error, _is_retry=True)
                 self._failed.remove(failed)
 
     def __str__(self):
